@@ -22,7 +22,7 @@ ASSUMPTIONS = [
     "list-valued trigger parameters are non-empty",
 ]
 MIN_NONTRIVIAL = {"quick": 1500, "thorough": 30000}
-REQUIRED_LABELS = ["kind.at", "kind.ats", "kind.range", "kind.ranges", "kind.period", "kind.periods", "periods.coincide", "added_late", "interval.60"]
+REQUIRED_LABELS = ["kind.at", "kind.ats", "kind.range", "kind.ranges", "kind.period", "kind.periods", "periods.coincide", "added_late", "interval.60", "added_by.trigger_rebind", "added_by.trigger_append"]
 
 INTERVALS = [1, 2, 5, 15, 60]
 _FRAME_CACHE = {}
@@ -59,6 +59,8 @@ def st_case(draw):
         spec = {"kind": kind, "kw": draw(st.sampled_from([{}, {"x": 1}, {"x": 7, "tag": "a"}])), "add_at": draw(st.sampled_from([None, None, None, 0, 1, 3, nbars // 2])), "sec": draw(st.sampled_from([0, 0, 30]))}
         if spec["add_at"] is not None and spec["add_at"] >= nbars:
             spec["add_at"] = None
+        # a trigger may also be registered by the action of another trigger: appended to the list, or by assigning a new list
+        spec["add_via"] = draw(st.sampled_from(["before", "before", "trigger_append", "trigger_rebind"])) if spec["add_at"] is not None and kind in ("at", "ats", "range", "ranges") else "before"
         if kind == "at":
             spec["t"] = t_on_grid()
         elif kind == "ats":
@@ -110,6 +112,8 @@ def make_trigger(spec, do):
 def denotation(spec, bars, interval):
     """Set of bar timestamps the specification denotes; None when not defined (off-grid period)."""
     first = spec["add_at"] or 0
+    if spec.get("add_via", "before") != "before":
+        first += 1  # registered during the trigger phase of bar add_at: whether that very bar still counts is left open
     B = bars[first:]
     k = spec["kind"]
     if k == "at":
@@ -158,13 +162,23 @@ def body(case, ctx: Ctx):
             self.triggers.append(objs[i])
 
         def initialize(self):
+            from demeter import strategy as S
+
             for i, sp in enumerate(specs):
                 if sp["add_at"] is None:
                     self._vf_add(i)
+                elif sp.get("add_via", "before") != "before":
+                    # a helper trigger whose action registers trigger i during the trigger phase of bar add_at
+                    def install(snap, _i=i, _via=sp["add_via"]):
+                        if _via == "trigger_rebind":
+                            self.triggers = list(self.triggers)
+                        self._vf_add(_i)
+
+                    self.triggers.append(S.AtTimeTrigger(bars[sp["add_at"]], install))
 
         def before_bar(self, snap):
             for i, sp in enumerate(specs):
-                if sp["add_at"] is not None and sp["add_at"] == snap.row_id:
+                if sp["add_at"] is not None and sp["add_at"] == snap.row_id and sp.get("add_via", "before") == "before":
                     self._vf_add(i)
 
         def after_bar(self, snap):
@@ -206,13 +220,19 @@ def body(case, ctx: Ctx):
         if exp is None:
             labels.append("offgrid")
             continue
+        may = set(exp)
+        if sp.get("add_via", "before") != "before":
+            labels.append(f"added_by.{sp['add_via']}")
+            own = bars[sp["add_at"]]
+            if denotation({**sp, "add_via": "before"}, bars, interval) and own in denotation({**sp, "add_via": "before"}, bars, interval):
+                may.add(own)
         missing = sorted(exp - set(got))
-        extra = sorted(set(got) - exp)
+        extra = sorted(set(got) - may)
         if missing or extra:
             ctx.fail(f"{k}.denotation." + ("missing" if missing else "extra"), f"trigger {i} {sp}: missing {missing[:4]} extra {extra[:4]} (bars {bars[0]}..{bars[-1]} x{len(bars)})", case)
         # retirement: a trigger that left strategy.triggers after bar j has no denoted bar later than j
         for ts, alive in alive_after:
-            if (sp["add_at"] is None or ts >= bars[sp["add_at"]]) and i not in alive:
+            if (sp["add_at"] is None or ts >= bars[sp["add_at"]]) and i not in alive and objs[i] is not None:
                 later = [b for b in exp if b > ts]
                 ctx.check(not later, f"{k}.retired_early", lambda: f"trigger {i} retired after {ts} but denotes {later[:3]}", case)
                 break
